@@ -85,6 +85,10 @@ class FakeWS:
         self.conn = conn
 
     def sendMessage(self, payload, isBinary):
+        if getattr(self.conn, "closing", False):
+            # what autobahn's WebSocketProtocol.sendMessage does whenever its state is not OPEN
+            from autobahn.exception import Disconnected
+            raise Disconnected("Attempt to send on a closed protocol")
         self.conn.c2s.append(bytes(payload))
         self.conn.client.log.append(("tx", bytes_to_dict(payload)))
 
@@ -258,6 +262,17 @@ class World:
             c.internal.append((type(e).__name__, str(e)[:200]))
             return type(e).__name__
 
+    def ws_closing(self, ci):
+        """the server starts the WebSocket closing handshake (restart, idle timeout, …): autobahn's protocol leaves
+        the OPEN state at once — nothing more is read, sendMessage() refuses — while onClose() only comes when the
+        connection is gone (the `drop` op)"""
+        c = self.clients[ci]
+        if c.conn is None or getattr(c.conn, "closing", False):
+            return "noop"
+        c.conn.closing = True
+        c.conn.s2c.clear()
+        return "ok"
+
     def tcp_up(self, ci):
         """the ClientService gets its TCP connection; the WebSocket negotiation is still under way"""
         c = self.clients[ci]
@@ -299,6 +314,8 @@ class World:
         if c.svc.stopping is not None and not c.svc.stopping.called:
             # ClientService.stopService() did transport.loseConnection(): Twisted has stopped
             # reading, nothing more is delivered on this connection
+            return "noop"
+        if getattr(c.conn, "closing", False):
             return "noop"
         payload = c.conn.s2c.popleft()
         return self._guard(c, lambda: c.rc.ws_message(payload)) or "ok"
